@@ -252,5 +252,44 @@ ReindexLikeFrom(a, t, i) ==
        ELSE ReindexLikeFrom(a, t, i + 1)
 ReindexLike(a, t) == ReindexLikeFrom(a, t, 1)
 
+
+(* ---------- C06: align ---------- *)
+SortSet(S) == SetToSortSeq(S, LAMBDA x, y : x < y)
+\* labels of several sequences in order of first appearance, without duplicates
+RECURSIVE FirstAppearance(_)
+FirstAppearance(Ls) == IF Ls = <<>> THEN <<>>
+                       ELSE LET rest == FirstAppearance(SubSeq(Ls, 1, Len(Ls) - 1))
+                            IN rest \o SelectSeq(Ls[Len(Ls)], LAMBDA v : \A k \in 1..Len(rest) : rest[k] # v)
+\* common axis of the label sequences Ls (those of the arrays that have the dimension):
+\* labs = one admissible result, free = TRUE when the property leaves the order of the labels open
+CommonAxis(Ls, join, sort) ==
+  LET set == IF join = "outer" THEN UnionSet(Ls) ELSE InterSet(Ls)
+      ne  == IF join = "outer" THEN SelectSeq(Ls, LAMBDA L : Len(L) > 0) ELSE Ls
+      witness == IF join = "outer" THEN FirstAppearance(Ls) ELSE SelectSeq(Ls[1], LAMBDA v : v \in set)
+  IN IF sort THEN [labs |-> SortSet(set), free |-> FALSE]
+     ELSE IF Len(ne) > 0 /\ \A i \in 1..Len(ne) : ne[i] = ne[1] THEN [labs |-> ne[1], free |-> FALSE]
+     ELSE IF \A i \in 1..Len(Ls) : Len(Ls[i]) >= 2 /\ IsInc(Ls[i]) THEN [labs |-> SortSet(set), free |-> FALSE]
+     ELSE IF \A i \in 1..Len(Ls) : Len(Ls[i]) >= 2 /\ IsDec(Ls[i]) THEN [labs |-> Rev(SortSet(set)), free |-> FALSE]
+     ELSE [labs |-> witness, free |-> TRUE]
+
+\* reindex array a on every dimension listed in dims (names) that it has, onto the common axes
+RECURSIVE AlignOne(_, _, _, _)
+AlignOne(a, dims, common, k) ==
+  IF k > Len(dims) THEN a
+  ELSE IF HasDim(a, dims[k])
+       THEN AlignOne(Reindex(a, DimPos(a, dims[k]), common[k].labs, a.kinds[DimPos(a, dims[k])], NaN, "f", FALSE, "none").val,
+                     dims, common, k + 1)
+       ELSE AlignOne(a, dims, common, k + 1)
+
+\* axis = <<>> (all dimensions) or <<d>>; result: [arrs |-> aligned arrays, free |-> dimension names whose label order is open]
+Align(arrs, join, sort, axis) ==
+  LET dims == IF axis = <<>> THEN AllDims(arrs) ELSE axis
+      having(d) == SelectSeq(Idx(arrs), LAMBDA i : HasDim(arrs[i], d))
+      common == [k \in 1..Len(dims) |->
+                   CommonAxis([j \in 1..Len(having(dims[k])) |-> arrs[having(dims[k])[j]].labs[DimPos(arrs[having(dims[k])[j]], dims[k])]],
+                              join, sort)]
+  IN [arrs |-> [i \in 1..Len(arrs) |-> AlignOne(arrs[i], dims, common, 1)],
+      free |-> SelectSeq(dims, LAMBDA d : common[CHOOSE k \in 1..Len(dims) : dims[k] = d].free)]
+
 IsPerm(p, n) == Len(p) = n /\ Rng(p) = 1..n
 =============================================================================
